@@ -94,9 +94,9 @@ def lastReach (starts sizes : List Nat) : Option Nat :=
 
 /-- block count = number of sizes = number of starts (≥ 1); first block start is 0; starts ascending;
     last start + last size = end − start; thick range inside [start, end].
-    The thick *range* is `[thickStart, thickEnd)`: an empty range (`thickStart = thickEnd`, which is how a
-    record without a coding region is written) is inside every interval; a non-empty one must satisfy
-    `start ≤ thickStart` and `thickEnd ≤ end`. -/
+    "Inside" is `start ≤ thickStart ≤ thickEnd ≤ end`.  The one exception is the format's conventional way of
+    writing "no thick part" with both columns 0 (UCSC readers treat `0 0` as "no coding region" wherever the
+    record starts); any other thick pair outside [start, end] — empty or not — is a violation. -/
 def invariants (r : Row) : Bool :=
   decide (r.blockCount = r.blockSizes.length) && decide (r.blockCount = r.blockStarts.length)
   && decide (1 ≤ r.blockCount)
@@ -105,7 +105,8 @@ def invariants (r : Row) : Bool :=
   && decide (r.start ≤ r.«end»)
   && decide (lastReach r.blockStarts r.blockSizes = some (r.«end» - r.start))
   && decide (r.thickStart ≤ r.thickEnd)
-  && (decide (r.thickStart = r.thickEnd) || (decide (r.start ≤ r.thickStart) && decide (r.thickEnd ≤ r.«end»)))
+  && ((decide (r.thickStart = 0) && decide (r.thickEnd = 0))
+      || (decide (r.start ≤ r.thickStart) && decide (r.thickEnd ≤ r.«end»)))
 
 /-- the blocks a reader reconstructs: `start + blockStarts[i]`, of length `blockSizes[i]` -/
 def blocksOf (r : Row) : List Blk :=
